@@ -317,6 +317,28 @@ def check_history(acc, job):
                 if not (got == alone[f2] or abs(got - alone[f2]) <= 1e-12 * abs(alone[f2])):
                     acc.violate(case, {'kind': 'history-dependence', 'fn': f2}, '%s(%g,%g) returns %r after a call of %s with the same arguments, %r on its own' % (f2, x, d, got, f1, alone[f2]))
         acc.outcome('history')
+    # calls on very different scales after one another (search state must not carry over)
+    menu = [('cdp_delta', (0.5, 3.0)), ('cdp_delta', (0.005, 0.5)), ('cdp_delta', (1e-5, 0.01)), ('cdp_eps', (50.0, 0.1)), ('cdp_eps', (1e-5, 1e-6)),
+            ('cdp_rho', (10.0, 1e-3)), ('cdp_rho', (0.01, 1e-9))]
+    k0 = job['k'] if job['tier'] == 'quick' else None
+    alone = {}
+    for i, (f1, a1) in enumerate(menu):
+        for j, (f2, a2) in enumerate(menu):
+            if i == j or (k0 is not None and (i + j) % 4 != k0 % 4):
+                continue
+            if (f2, a2) not in alone:
+                alone[(f2, a2)] = getattr(fresh_module(), f2)(*a2)
+            m = fresh_module()
+            getattr(m, f1)(*a1)
+            got = getattr(m, f2)(*a2)
+            case = {'fn': 'history', 'calls': [f1, f2], 'args': list(a1), 'args2': list(a2)}
+            acc.case(case)
+            acc.states += 2
+            acc.transitions += 2
+            acc.traces += 1
+            ref = alone[(f2, a2)]
+            if not (got == ref or abs(got - ref) <= 1e-9 * abs(ref)):
+                acc.violate(case, {'kind': 'history-dependence', 'fn': f2}, '%s%r returns %r after %s%r, %r on its own' % (f2, a2, got, f1, a1, ref))
     acc.sample({'history': ['cdp_eps(1.0,1e-9)', 'cdp_rho(1.0,1e-9)']})
 
 
@@ -338,13 +360,15 @@ def replay(case):
     fn = case['fn']
     if fn == 'history':
         f1, f2 = case['calls']
-        x, d = case['args']
-        alone = getattr(fresh_module(), f2)(x, d)
+        a1 = tuple(case['args'])
+        a2 = tuple(case.get('args2', case['args']))
+        x, d = a1
+        alone = getattr(fresh_module(), f2)(*a2)
         m2 = fresh_module()
-        getattr(m2, f1)(x, d)
-        got = getattr(m2, f2)(x, d)
+        getattr(m2, f1)(*a1)
+        got = getattr(m2, f2)(*a2)
         print('%s alone: %r; after %s: %r' % (f2, alone, f1, got))
-        if not (got == alone or abs(got - alone) <= 1e-12 * abs(alone)):
+        if not (got == alone or abs(got - alone) <= 1e-9 * abs(alone)):
             acc.violate(case, {'kind': 'history-dependence'}, '%s differs after %s' % (f2, f1))
         return acc.violations
     if 'mono' in case:
